@@ -89,8 +89,11 @@ func vfMakeTx(tag string) *vfTx {
 			lo, hi = 0, 0
 		}
 	}
+	if vfMode == 2 {
+		lo, hi = 0, 1 // ordinary senders only
+	}
 	snd := vfChoose(tag+".sender", lo, hi)
-	if vfSlot == 1 || (vfMode == 1 && vfSlot == 1) {
+	if vfMode != 2 && (vfSlot == 1 || (vfMode == 1 && vfSlot == 1)) {
 		snd *= 2 // 0 -> A, 1 -> (Notary, A)
 	}
 	if vfMode == 1 && vfSlot == 1 {
@@ -110,6 +113,14 @@ func vfMakeTx(tag string) *vfTx {
 		t.payer = payer{primary: nativehashes.Notary, secondary: vfAccB}
 		signers = []transaction.Signer{{Account: nativehashes.Notary}, {Account: vfAccB}}
 	}
+	if vfMode == 2 && snd < 2 && vfSlot >= 2 && vfBool(tag+".cosigned") {
+		// the other ordinary account co-signs (it does not pay)
+		other := vfAccB
+		if snd == 1 {
+			other = vfAccA
+		}
+		signers = append(signers, transaction.Signer{Account: other})
+	}
 	t.size = 1 << uint(vfSlot) // distinct sizes 2, 4, 8, ...: fee-per-byte order differs from network-fee order
 	tx := transaction.NewFakeTX([]byte{0x40}, signers[0], t.hash, t.size)
 	tx.Signers = signers
@@ -117,11 +128,11 @@ func vfMakeTx(tag string) *vfTx {
 	tx.NetworkFee = int64(vfU32(tag + ".netfee"))
 	t.fee = uint64(tx.SystemFee + tx.NetworkFee)
 	ahi := 3
-	if vfMode == 1 {
+	if vfMode == 1 || vfMode == 2 {
 		ahi = 1
 	}
 	at := vfChoose(tag+".attr", 0, ahi)
-	if vfMode == 1 && at == 1 {
+	if (vfMode == 1 || vfMode == 2) && at == 1 {
 		at = 2
 	}
 	switch at {
@@ -417,3 +428,8 @@ func VF_C08_pool_notary_cap2_k2() { vfRun(2, 2, 1) }
 //vf:tier thorough
 //vf:unwind 64
 func VF_C08_pool_notary_cap3_k2() { vfRun(3, 2, 1) }
+
+//vf:tier thorough
+//vf:unwind 64
+//vf:bound capacity 2 and 3, two pre-added transactions, ordinary senders A or B, every transaction but the first optionally co-signed by the other account (which does not pay), attributes none or Conflicts; one Add/Remove/RemoveStale
+func VF_C08_pool_cosigned_cap2_k2() { vfRun(2, 2, 2) }
